@@ -3,6 +3,7 @@
 Monitor shape: differential.  Two structures are fed streams A and B, a third one both; the union / join must be identical,
 cell by cell (and total by total), to the single-stream structure.
 """
+import os
 from collections import Counter
 
 from .. import bl, gen, refimpl
@@ -146,6 +147,23 @@ def wl_bloom(ctx, rng, case):
             if first is sB:
                 sAB.add("only-in-the-first-operand-later")
             ctx.count("aliasing_checks")
+        # ---- the file NAME of an open on-disk operand is taken over by another file (a fresh filter published under the same name by
+        # write-then-rename while this one is still open): the open operand is what its handle holds, not what the name now points at
+        for o in (sA, sB):
+            if id(o) in paths and rng.random() < 0.5:
+                newer = mk(False)
+                newer.add("only-in-the-file-that-took-over-the-name")
+                tmp = sc.path("published")
+                newer.export(tmp)
+                os.replace(tmp, paths[id(o)])
+                other = sB if o is sA else sA
+                for tag, res in (("open_operand.union(other)", o.union(other)), ("other.union(open_operand)", other.union(o))):
+                    ctx.check(res is not None, f"{tag} returned None after the operand's file name was taken over by another file")
+                    for key in keys + ["only-in-the-first-operand-later", "only-in-the-result"]:
+                        if o.check(key) or other.check(key):
+                            ctx.check(res.check(key), f"{tag} does not report a key an operand reports (the open operand's file name now belongs to another file)", key=key)
+                ctx.count("unions_with_an_open_operand_whose_name_was_taken_over")
+                break
         case.nontrivial = len(set(A)) >= 1 and len(set(B)) >= 1
     finally:
         for o in objs:
